@@ -1170,13 +1170,16 @@ where
         }
         let mut safe = self.safe.write().await;
         if let None = safe.active_blob {
-            let blob_opt = safe.blobs.write().await.pop();
-            if let Some(mut blob) = blob_opt {
-                // The index of a closed blob may already be dumped to disk; an active blob needs it in memory to accept writes
-                if let Err(e) = blob.load_index().await {
-                    safe.blobs.write().await.push(blob).await;
-                    return Err(e);
+            let blob_opt = {
+                let mut blobs = safe.blobs.write().await;
+                // The index of a closed blob may already be dumped to disk; an active blob needs it in memory to accept writes.
+                // It is loaded while the blob is still in the list: an error (or a dropped future) here loses nothing
+                if let Some(blob) = blobs.last_id().and_then(|id| blobs.get_child_mut(id)) {
+                    blob.data.load_index().await?;
                 }
+                blobs.pop()
+            };
+            if let Some(blob) = blob_opt {
                 safe.active_blob = Some(Box::new(ASRwLock::new(blob)));
                 Ok(())
             } else {
